@@ -13,8 +13,9 @@ ladder of `element`, the tests for a vanishing denominator, the gcd that is repo
 The ring of residues is abstract (`R` with ring operations); what the code needs from `ZmodN` besides the
 ring operations is collected in `Ctx`: the modulus, `zn.inv` (partial), the gcd of a residue with the
 modulus, the comparison with zero and the embedding of integers. The native driver instantiates `R` with
-canonical residues modulo `n` (Drv/Suyama.lean), the theorems instantiate it with any commutative ring
-(Props/C15Suyama.lean) under the laws `Ctx.Lawful`, which `ZMod n` satisfies.
+canonical residues `Fin n` and the context `finCtx n` (end of this file; Drv/Suyama.lean), the theorems hold
+for any commutative ring (Props/C15Suyama.lean) under the laws `Ctx.Lawful`, which `finCtx n` satisfies
+(Lemmas/CurveBuildFin.lean `finCtx_lawful`) as does `ZMod n` with its own inverse (`zmodCtx_lawful`).
 
 Results: `Res.ok v` = `Ok(v)`, `Res.err f` = `Err(UnexpectedLargeFactor(f))` / `Err(UnexpectedFactor(f))`,
 `Res.panic` = a Rust panic (assert, overflow in the checked profile).
